@@ -379,13 +379,30 @@ Definition succs_of (b : minstr) (a : Z) : list (Z * option expr) :=
 
 Definition okc (o : option (res cfg)) : option cfg := match o with Some (Ok g) => Some g | _ => None end.
 
+(* BlockTranslationResult::new -> merge_successors (lib/translator/block_translation_result.rs): successors
+   naming the same address are merged into the first one, in first-occurrence order; two guards are or-ed
+   (on a sort error the first guard is kept), an unguarded successor makes the merged one unguarded *)
+Fixpoint merge_into (acc : list (Z * option expr)) (a : Z) (c : option expr) : list (Z * option expr) :=
+  match acc with
+  | [] => [(a, c)]
+  | (a', c') :: t =>
+      if a' =? a then
+        (a', match c', c with
+             | Some l, Some r => match mk_bin Or l r with Ok e => Some e | _ => Some l end
+             | _, _ => None
+             end) :: t
+      else (a', c') :: merge_into t a c
+  end.
+Definition merge_succs (l : list (Z * option expr)) : list (Z * option expr) :=
+  fold_left (fun acc x => merge_into acc (fst x) (snd x)) l [].
+
 Definition mirror_block (bg : bool) (addr : Z) (ws : list Z) (temps : list (list N)) : option mlifted :=
   match ws with
   | [w] =>
       match decode w with
       | Some i => if is_control i then None else
           match okc (lift_plain bg i addr (nth 0 temps [])) with
-          | Some g => Some ([(addr, g)], [(addr + 4, None)])
+          | Some g => Some ([(addr, g)], merge_succs [(addr + 4, None)])
           | None => None
           end
       | None => None
@@ -395,10 +412,55 @@ Definition mirror_block (bg : bool) (addr : Z) (ws : list Z) (temps : list (list
       | Some b, Some sl =>
           if negb (is_control b) || is_control sl then None else
           match okc (pre_graph b addr), okc (lift_plain bg sl (addr + 4) (nth 1 temps [])), okc (post_graph b addr) with
-          | Some p, Some s, Some q => Some ([(addr, p); (addr + 4, s); (addr + 1, q)], succs_of b addr)
+          | Some p, Some s, Some q => Some ([(addr, p); (addr + 4, s); (addr + 1, q)], merge_succs (succs_of b addr))
           | _, _, _ => None
           end
       | _, _ => None
       end
   | _ => None
+  end.
+
+(* ---------- which plain forms have a correctness theorem (Isa/MipsProofs.v), and the field ranges the
+   theorems assume; both are evaluated by the tie for every enumerated encoding ---------- *)
+Definition proved_plain (i : minstr) : bool :=
+  match i with
+  | MAlu3 _ _ _ _ | MShi _ _ _ _ | MShv _ _ _ _ | MAluI _ _ _ _ | MLui _ _
+  | MMfhi _ | MMflo _ | MMthi _ | MMtlo _ | MTeq _ _ _ | MBreak _ | MSyscall _ | MSync _ | MPref _ _ _ => true
+  | _ => false
+  end.
+
+
+Definition regb (r : Z) : bool := (0 <=? r) && (r <=? 31).
+Definition fields_okb (i : minstr) : bool :=
+  match i with
+  | MAlu3 _ rd rs rt => regb rd && regb rs && regb rt
+  | MShi _ rd rt sa => regb rd && regb rt && (0 <=? sa) && (sa <? 32)
+  | MShv _ rd rt rs => regb rd && regb rt && regb rs
+  | MAluI _ rt rs imm => regb rt && regb rs && (0 <=? imm) && (imm <? 2 ^ 16)
+  | MLui rt imm => regb rt && (0 <=? imm) && (imm <? 2 ^ 16)
+  | MMfhi r | MMflo r | MMthi r | MMtlo r => regb r
+  | MTeq rs rt _ => regb rs && regb rt
+  | _ => true
+  end.
+Definition off_okb (a off : Z) : bool :=
+  (0 <=? off) && (off <? 2 ^ 16) && (0 <=? a + 4 + sx16 off * 4) && (a + 4 + sx16 off * 4 <? 2 ^ 32).
+Definition branch_okb (a : Z) (b : minstr) : bool :=
+  match b with
+  | MJ idx | MJal idx => (0 <=? idx) && (idx <? 2 ^ 26)
+  | MJr rs => regb rs
+  | MJalr rd rs => regb rd && regb rs
+  | MBr2 _ rs rt off => regb rs && regb rt && off_okb a off
+  | MBrz _ rs off | MBrzal _ rs off => regb rs && off_okb a off
+  | _ => true
+  end.
+(* side conditions of the block theorems for the words of one case *)
+Definition case_okb (a : Z) (ws : list Z) : bool :=
+  (0 <=? a) && (a + 8 <? 2 ^ 32) &&
+  match ws with
+  | [w] => match decode w with Some i => fields_okb i | None => true end
+  | [w1; w2] => match decode w1, decode w2 with
+                | Some b, Some sl => branch_okb a b && fields_okb sl
+                | _, _ => true
+                end
+  | _ => true
   end.
